@@ -116,6 +116,26 @@ func (t *PTy) hasRef() bool {
 	return false
 }
 
+// bad: the expression does not resolve - an Integer range or a String/Array size range with min > max
+// (NewIntegerType raises a reported error); mirrors `pty_ok` of the model.
+func (t *PTy) bad() bool {
+	switch t.K {
+	case "Integer", "String", "Array":
+		if t.Lo != nil && t.Hi != nil && *t.Lo > *t.Hi {
+			return true
+		}
+		if t.K == "String" && t.Lo == nil && t.Hi != nil && *t.Hi < 0 {
+			return true
+		}
+	}
+	for _, e := range t.Ts {
+		if e.bad() {
+			return true
+		}
+	}
+	return false
+}
+
 func gLo(p *int64, dflt string) string {
 	if p == nil {
 		return dflt
